@@ -22,7 +22,7 @@ def BitSet.set (P : Params) (s : BitSet) (i : Nat) : BitSet :=
 /-- `s.data[x] &^= (1 << y)` -/
 def BitSet.unset (P : Params) (s : BitSet) (i : Nat) : BitSet :=
   let (x, y) := bsIdx P i
-  ⟨fun k => if k = x then (s.w k - (s.w k &&& ((1 <<< y) % two64))) else s.w k⟩
+  ⟨fun k => if k = x then (s.w k &&& ((two64 - 1) ^^^ ((1 <<< y) % two64))) else s.w k⟩
 
 def BitSet.test (P : Params) (s : BitSet) (i : Nat) : Bool :=
   let (x, y) := bsIdx P i
